@@ -8,6 +8,7 @@ from ..core import (AnalysisError, call_name, const, dotted, is_const, kwarg, lo
                     origin, parent_map, walk_local)
 from ..facts import guards_of, mentions, recv_calls, returns_of, unpack_of, assigned_subscripts
 from ..rules.nonmut import is_deepcopy, mutations
+from ..pattern import pmatch, pfind
 from ..shape import SymTuple, atom, pretty, sym_eval, sym_tuple, tri, walk_paths
 
 SR = "synkit/Synthesis/Reactor/syn_reactor.py"
@@ -62,15 +63,18 @@ def nonmutation(rep):
             rep.ob("O3.1", "R9", fi, False, node, f"substrate must stay unchanged: {why}", node=node)
     # the working copy in _glue_graph really is a deep copy of host
     fi = rep.f(SR, "SynReactor._glue_graph")
-    defs = local_defs(fi.node)
-    hg = defs.get("host_g", [])
-    first = hg[0].value if hg else None
-    ok = isinstance(first, ast.Call) and is_deepcopy(first) and norm(first.args[0]) == "host"
-    rep.ob("O3.1", "R9", fi, ok if hg else None, hg[0].stmt if hg else "host_g", "gluing works on deepcopy(host)")
-    # each result is its own copy
-    its_defs = [d for d in defs.get("its", []) if d.kind == "assign"]
-    ok = bool(its_defs) and is_deepcopy(its_defs[0].value)
-    rep.ob("O3.1", "R9", fi, ok if its_defs else None, its_defs[0].stmt if its_defs else "its", "every proposed ITS is an independent deep copy")
+    work = [(n, b) for n, b in pfind("$g = $$c", fi.node, into_nested=False) if isinstance(n, ast.Assign) and is_deepcopy(n.value)
+            and n.value.args and norm(n.value.args[0]) == "host"]
+    rep.ob("O3.1", "R9", fi, len(work) == 1, work[0][0] if work else "deepcopy(host)", "gluing works on a deep copy of the substrate graph")
+    g = work[0][1]["g"] if work else None
+    # each result is its own copy of that working graph
+    res = [(n, b) for n, b in pfind("$its = $$c", fi.node, into_nested=False) if isinstance(n, ast.Assign) and is_deepcopy(n.value)
+           and n.value.args and norm(n.value.args[0]) == g]
+    apps = [n for n, b in pfind("$l.append($x)", fi.node, into_nested=False) if res and b["x"] == res[0][1]["its"]]
+    rets = returns_of(fi.node)
+    ok = len(res) == 1 and len(apps) == 1 and bool(rets) and norm(rets[-1].value) == norm(apps[0].func.value)
+    if g:
+        rep.ob("O3.1", "R9", fi, ok, res[0][0] if res else "its = deepcopy(working copy)", "every proposed ITS is an independent deep copy and those copies are what is returned")
 
 
 # ------------------------------------------------------------------ O3.2
@@ -154,66 +158,74 @@ def bond_glue(rep):
     fi = rep.f(SR, "SynReactor._glue_graph")
     defs = local_defs(fi.node)
     pm = parent_map(fi.node)
+    # the loop over template bonds:  for u, v, ra in rc.edges(data=True)
+    edge_loops = [l for l in walk_local(fi.node) if isinstance(l, ast.For) and pmatch("rc.edges(data=True)", l.iter) is not None
+                  and isinstance(l.target, ast.Tuple) and len(l.target.elts) == 3]
+    rep.need("SRC", len(edge_loops), 1, "loop over template bonds in _glue_graph")
+    lp = edge_loops[0]
+    u, v, rc_attr = [norm(e) for e in lp.target.elts]
     # (1) every substrate bond enters as (o, o) with standard_order 0
-    init = [(t, v, st) for t, v, st in assigned_subscripts(fi.node) if is_const(t.slice, "order") and isinstance(t.value, ast.Name)
-            and isinstance(v, ast.Tuple) and len(v.elts) == 2]
-    pre = [x for x in init if norm(x[0].value) == "data"]
-    rep.need("R15", len(pre), 1, "data['order'] = (o, o) initialisation")
-    for t, v, st in pre:
-        same = norm(v.elts[0]) == norm(v.elts[1])
-        src = origin(defs, v.elts[0])
-        from_host = isinstance(src, ast.Call) and call_name(src) == "get" and src.args and is_const(src.args[0], "order")
-        rep.ob("O3.3", "R15", fi, same and from_host, st, "an untouched substrate bond becomes the pair (o, o) of its own order")
-        gs = guards_of(pm, st, fi.node)
-        rep.ob("O3.3", "R15", fi, not gs, st, "the (o, o) initialisation covers every substrate bond", {"guards": [norm(g) for g, _ in gs]})
-    sd = [c for c in recv_calls(fi.node, "data", "setdefault") if c.args and is_const(c.args[0], "standard_order")]
-    ok = bool(sd) and len(sd[0].args) == 2 and is_const(sd[0].args[1]) and const(sd[0].args[1]) == 0
-    rep.ob("O3.3", "R15", fi, ok, sd[0] if sd else "setdefault('standard_order')", "an untouched substrate bond has standard_order 0")
-    # (2) additive path
-    adds = [(t, v, st) for t, v, st in init if norm(t.value) != "data"]
-    # wholesale overwrites of an existing substrate bond are only sound when the template bond exists on the
-    # reactant side too (then the matcher guarantees equal reactant-side orders)
-    ups = [c for c in recv_calls(fi.node, None, "update") if c.args and norm(c.args[0]) == "rc_attr"]
+    pre = [(n, b) for n, b in pfind("$d['order'] = ($$a, $$b)", fi.node, into_nested=False) if not any(x is n for x in ast.walk(lp))]
+    rep.need("R15", len(pre), 1, "<data>['order'] = (o, o) initialisation")
+    for st, b in pre:
+        same = b["a"] == b["b"] and b["a"].isidentifier()
+        rep.ob("O3.3", "R15", fi, same, st, "both components of an untouched bond's order pair are the same value")
+        if not same:
+            continue
+        b["o"] = b["a"]
+        src = origin(defs, ast.Name(id=b["o"], ctx=ast.Load()))
+        from_host = pmatch("$d.get('order', $$dflt)", src, {"d": b["d"]}) is not None
+        from ..facts import enclosing_loops as _el
+        lps = list(reversed(_el(pm, st, fi.node)))  # outermost .. innermost
+        its_loop = bool(lps) and pmatch("$its.edges(data=True)", lps[-1].iter) is not None and norm(lps[-1].target.elts[-1]) == b["d"]
+        rep.ob("O3.3", "R15", fi, from_host and its_loop, st, "an untouched substrate bond becomes the pair (o, o) of its own order")
+        gs = guards_of(pm, st, lps[-1] if lps else fi.node)
+        rep.ob("O3.3", "R15", fi, not gs, st, "the (o, o) initialisation covers every substrate bond", {"guards": [norm(g_) for g_, _ in gs]})
+        sd = pfind("$d.setdefault('standard_order', $$z)", lps[-1] if lps else fi.node, {"d": b["d"]})
+        ok = len(sd) == 1 and sd[0][1]["z"] in ("0.0", "0")
+        rep.ob("O3.3", "R15", fi, ok, sd[0][0] if sd else "setdefault('standard_order')", "an untouched substrate bond has standard_order 0")
+    # (2) writes to an EXISTING substrate bond inside the template-bond loop
+    ups = [n for n, b in pfind("$$h.update($ra)", lp, {"ra": rc_attr})]
     for c in ups:
-        gs = guards_of(pm, c, fi.node)
+        gs = guards_of(pm, c, lp)
         guarded = False
-        for g, sense in gs:
-            if isinstance(g, ast.Compare) and isinstance(g.left, ast.Subscript) and is_const(g.left.slice, 0) and is_const(g.comparators[0]) \
-                    and const(g.comparators[0]) == 0:
-                if (isinstance(g.ops[0], ast.Eq) and not sense) or (isinstance(g.ops[0], ast.NotEq) and sense):
+        for g_, sense in gs:
+            if isinstance(g_, ast.Compare) and isinstance(g_.left, ast.Subscript) and is_const(g_.left.slice, 0) and is_const(g_.comparators[0]) \
+                    and const(g_.comparators[0]) == 0:
+                if (isinstance(g_.ops[0], ast.Eq) and not sense) or (isinstance(g_.ops[0], ast.NotEq) and sense):
                     guarded = True
-        rep.ob("O3.3", "R15", fi, guarded, f"{norm(c)} under {[norm(g) for g, _ in gs]}",
+        rep.ob("O3.3", "R15", fi, guarded, f"{norm(c)} under {[norm(g_) for g_, _ in gs]}",
                "an existing substrate bond may take the template's order pair only if the template bond exists on the reactant side (order[0] != 0); "
                "otherwise the reactant side of the result loses a substrate bond", node=c)
+    adds = [(n, b) for n, b in pfind("$ha['order'] = ($$a, $$b)", lp)]
     if not adds:
         rep.ob("O3.3", "R15", fi, False, "no additive path for bonds formed across an existing substrate bond",
                "a template bond that is new on the product side but lands on an existing substrate bond must ADD its order on the product side", node=fi.node)
-    for t, v, st in adds:
-        host_attr = norm(t.value)
-        gs = guards_of(pm, st, fi.node)
-        gtxt = [(norm(g).replace(" ", ""), s) for g, s in gs]
+    for st, b in adds:
+        host_attr = b["ha"]
+        gs = guards_of(pm, st, lp)
         rc_order_name = None
-        for g, s in gs:
-            if isinstance(g, ast.Compare) and isinstance(g.left, ast.Subscript) and is_const(g.left.slice, 0) \
-                    and isinstance(g.ops[0], ast.Eq) and is_const(g.comparators[0]) and const(g.comparators[0]) == 0 and s:
-                rc_order_name = norm(g.left.value)
-        rep.ob("O3.3", "R15", fi, rc_order_name is not None, f"additive path guard {[g for g, _ in gtxt]}",
+        for g_, s_ in gs:
+            m_ = pmatch("$ro[0] == 0", g_)
+            if m_ and s_:
+                rc_order_name = m_["ro"]
+        rep.ob("O3.3", "R15", fi, rc_order_name is not None, f"additive path guard {[norm(g_) for g_, _ in gs]}",
                "the additive path is taken exactly when the template bond is absent on the reactant side (order[0] == 0)", node=st)
         if rc_order_name is None:
             continue
         rc_src = origin(defs, ast.Name(id=rc_order_name, ctx=ast.Load()))
-        ok_rc = isinstance(rc_src, ast.Call) and call_name(rc_src) == "get" and is_const(rc_src.args[0], "order") \
-            and norm(rc_src.func.value) == "rc_attr"
+        ok_rc = pmatch("$ra.get('order', $$dflt)", rc_src, {"ra": rc_attr}) is not None or pmatch("$ra['order']", rc_src, {"ra": rc_attr}) is not None
         rep.ob("O3.3", "SRC", fi, ok_rc, rc_src, "the template's order pair is read from the template bond")
-        env = {rc_order_name: sym_tuple("rc", 2)}
-        # ho = host_attr["order"]
+        ha_src = origin(defs, ast.Name(id=host_attr, ctx=ast.Load()))
+        hm = pmatch("$its[$hu][$hv]", ha_src)
+        rep.ob("O3.3", "SRC", fi, hm is not None, ha_src, "the bond that is updated is the substrate bond between the matched end points")
+        env = {rc_order_name: sym_tuple("rc", 2), f"{host_attr}['order']": sym_tuple("ho", 2)}
         for nm, ds in defs.items():
             for d in ds:
-                if d.kind == "assign" and isinstance(d.value, ast.Subscript) and norm(d.value) == f"{host_attr}['order']":
+                if d.kind == "assign" and pmatch("$ha['order']", d.value, {"ha": host_attr}) is not None:
                     env[nm] = sym_tuple("ho", 2)
-        env[f"{host_attr}['order']"] = sym_tuple("ho", 2)
         try:
-            val = sym_eval(v, env)
+            val = sym_eval(st.value, env)
             ho, rc = sym_tuple("ho", 2), sym_tuple("rc", 2)
             rep.ob("O3.3", "R15", fi, val[0] == ho[0], f"new order[0] = {pretty(val[0])}",
                    "reactant-side order of a glued bond is the substrate's, untouched", node=st)
@@ -221,32 +233,25 @@ def bond_glue(rep):
                    "product-side order = substrate order + template product-side order", node=st)
         except Undecided as exc:
             rep.ob("O3.3", "R15", fi, None, st, f"order arithmetic not evaluable: {exc}")
-        # standard_order accumulates the template's
-        aug = [n for n in walk_local(fi.node) if isinstance(n, ast.AugAssign) and isinstance(n.target, ast.Subscript)
-               and is_const(n.target.slice, "standard_order")]
-        ok = len(aug) == 1 and isinstance(aug[0].op, ast.Add) and norm(aug[0].target.value) == host_attr \
-            and isinstance(aug[0].value, ast.Call) and call_name(aug[0].value) == "get" \
-            and is_const(aug[0].value.args[0], "standard_order") and norm(aug[0].value.func.value) == "rc_attr" \
-            and guards_of(pm, aug[0], fi.node) == gs
+        aug = [n for n in walk_local(lp) if isinstance(n, ast.AugAssign) and pmatch("$ha['standard_order']", n.target, {"ha": host_attr}) is not None]
+        ok = len(aug) == 1 and isinstance(aug[0].op, ast.Add) and (pmatch("$ra.get('standard_order', $$z)", aug[0].value, {"ra": rc_attr}) is not None) \
+            and guards_of(pm, aug[0], lp) == gs
         rep.ob("O3.3", "R15", fi, ok, aug[0] if aug else "standard_order +=", "standard_order accumulates the template's change on the additive path")
     # (3) end points go through the match
-    edge_loops = [l for l in walk_local(fi.node) if isinstance(l, ast.For) and norm(l.iter).replace(" ", "") == "rc.edges(data=True)"]
-    rep.need("SRC", len(edge_loops), 1, "loop over template bonds in _glue_graph")
-    lp = edge_loops[0]
-    u, v = [norm(e) for e in lp.target.elts[:2]]
-    hu_hv = [st for st in lp.body if isinstance(st, ast.Assign) and isinstance(st.value, ast.Tuple)]
-    ok = bool(hu_hv) and [norm(e).replace(" ", "") for e in hu_hv[0].value.elts] == [f"m.get({u})", f"m.get({v})"]
-    rep.ob("O3.3", "SRC", fi, ok, hu_hv[0] if hu_hv else lp, "template bond end points are translated through the match m")
+    hu_hv = pfind("$hu, $hv = ($m.get($u), $m.get($v))", lp, {"u": u, "v": v})
+    from ..facts import enclosing_loops
+    mloop = enclosing_loops(pm, lp, fi.node)
+    ok = len(hu_hv) == 1 and bool(mloop) and norm(mloop[0].target) == hu_hv[0][1]["m"]
+    rep.ob("O3.3", "SRC", fi, ok, hu_hv[0][0] if hu_hv else lp, "template bond end points are translated through the current match")
     # node loop: glue host node m[rc_n] with template node rc_n
-    ng = [c for c in walk_local(fi.node) if isinstance(c, ast.Call) and call_name(c) == "_node_glue"]
-    rep.need("SRC", len(ng), 1, "_node_glue call")
-    c = ng[0]
-    loops = [l for l in walk_local(fi.node) if isinstance(l, ast.For) and any(x is c for x in ast.walk(l))]
-    inner = loops[-1] if loops else None
-    ok = inner is not None and norm(inner.iter).replace(" ", "") == "m.items()" and isinstance(inner.target, ast.Tuple) \
-        and len(c.args) >= 2 and norm(c.args[0]).replace(" ", "") == f"its.nodes[{norm(inner.target.elts[1])}]" \
-        and norm(c.args[1]).replace(" ", "") == f"rc.nodes[{norm(inner.target.elts[0])}]"
-    rep.ob("O3.2", "SRC", fi, ok, c, "_node_glue(host atom m[rc_n] of the copy, template atom rc_n)")
+    ng = pfind("SynReactor._node_glue($its.nodes[$hn], rc.nodes[$rn])", fi.node, into_nested=False)
+    rep.need("SRC", len(ng), 1, "_node_glue(copy.nodes[host atom], rc.nodes[template atom])")
+    c, b = ng[0]
+    loops = enclosing_loops(pm, c, fi.node)
+    inner = loops[0] if loops else None
+    ok = inner is not None and pmatch("$m.items()", inner.iter) is not None and isinstance(inner.target, ast.Tuple) \
+        and [norm(e) for e in inner.target.elts] == [b["rn"], b["hn"]] and (not hu_hv or pmatch("$m.items()", inner.iter)["m"] == hu_hv[0][1]["m"])
+    rep.ob("O3.2", "SRC", fi, ok, c, "_node_glue(host atom m[rc_n] of the copy, template atom rc_n) for every pair of the match")
 
 
 # ------------------------------------------------------------------ O3.4
@@ -321,34 +326,43 @@ def schema(rep):
                "hydrogen bookkeeping reads the writer's hcount position")
     # hydrogen migration: every recorded migration moves exactly ONE hydrogen (one explicit H node is created per entry)
     pmh = parent_map(eh.node)
-    apps = [c for c in walk_local(eh.node) if isinstance(c, ast.Call) and norm(c.func) == "migrations.append"]
-    rep.need("R15", len(apps), 1, "migrations.append in _explicit_h")
+    from ..facts import enclosing_loops
+    # the loop that creates explicit hydrogens: `for src, dst in <M>: ... rc.add_node(..., element="H", ...)`
+    news = [c for c in walk_local(eh.node) if isinstance(c, ast.Call) and norm(c.func) == f"{eh.params[0]}.add_node"]
+    mloop = [l for c in news for l in enclosing_loops(pmh, c, eh.node)[:1]]
+    okn = len(news) == 1 and len(mloop) == 1 and isinstance(mloop[0].iter, ast.Name) and is_const(kwarg(news[0], "element"), "H")
+    rep.ob("O3.2", "R15", eh, okn, news[0] if news else "rc.add_node", "one explicit hydrogen atom is created per recorded migration", node=mloop[0] if mloop else eh.node)
+    M_ = mloop[0].iter.id if okn else "migrations"
+    apps = [n for n, b in pfind("$m.append($$x)", eh.node, {"m": M_})]
+    rep.need("R15", len(apps), 1, "append to the migration list in _explicit_h")
     for c in apps:
-        from ..facts import enclosing_loops
         lps = enclosing_loops(pmh, c, eh.node)
         inner = lps[0] if lps else None
+        donor_loop = lps[1] if len(lps) > 1 else None
+        cnt = norm(donor_loop.target.elts[1]) if donor_loop is not None and isinstance(donor_loop.target, ast.Tuple) and len(donor_loop.target.elts) == 2 else None
         per_unit = None
-        if isinstance(inner, ast.For) and isinstance(inner.iter, ast.Call) and call_name(inner.iter) == "range" and len(inner.iter.args) == 1 \
-                and norm(inner.iter.args[0]) == "count":
+        if isinstance(inner, ast.For) and cnt and pmatch("range($c)", inner.iter, {"c": cnt}) is not None:
             per_unit = True   # one iteration per unit of the donor's surplus
         elif isinstance(inner, ast.While):
-            decs = [n for n in walk_local(inner) if isinstance(n, ast.AugAssign) and norm(n.target) == "count" and isinstance(n.op, ast.Sub)]
+            decs = [n for n in walk_local(inner) if isinstance(n, ast.AugAssign) and isinstance(n.target, ast.Name) and isinstance(n.op, ast.Sub)
+                    and n.target.id in {x.id for x in ast.walk(inner.test) if isinstance(x, ast.Name)}]
             per_unit = len(decs) == 1 and is_const(decs[0].value, 1)
-        rep.ob("O3.2", "R15", eh, per_unit, f"migrations.append inside `{norm(inner)[:50] if inner is not None else '?'}`",
+        rep.ob("O3.2", "R15", eh, per_unit, f"{norm(c)[:40]} inside `{norm(inner)[:50] if inner is not None else '?'}`",
                "each recorded migration accounts for exactly one unit of the donor's hydrogen surplus (hydrogen count is conserved)", node=c)
-        caps = [(t, v, st) for t, v, st in assigned_subscripts(inner if inner is not None else eh.node) if norm(t.value) == "recips"]
-        okc = None
-        if caps:
-            v = caps[0][1]
-            okc = isinstance(v, ast.Tuple) and len(v.elts) == 2 and isinstance(v.elts[1], ast.BinOp) and isinstance(v.elts[1].op, ast.Sub) and is_const(v.elts[1].right, 1)
-        rep.ob("O3.2", "R15", eh, okc, caps[0][2] if caps else "recips[...] = (recv, rcap - 1)", "and exactly one unit of the recipient's deficit", node=c)
-    news = [c for c in walk_local(eh.node) if isinstance(c, ast.Call) and norm(c.func) == "rc.add_node"]
-    mloop = [l for l in walk_local(eh.node) if isinstance(l, ast.For) and norm(l.iter) == "migrations"]
-    okn = len(news) == 1 and len(mloop) == 1 and any(x is news[0] for x in ast.walk(mloop[0])) and is_const(kwarg(news[0], "element"), "H")
-    rep.ob("O3.2", "R15", eh, okn, news[0] if news else "rc.add_node", "one explicit hydrogen atom is created per recorded migration", node=mloop[0] if mloop else eh.node)
-    nid = [d for d in local_defs(eh.node).get("next_id", []) if d.kind == "assign"]
-    okf = bool(nid) and norm(nid[0].value).replace(" ", "").startswith("max((nforninrc.nodesifisinstance(n,int)),default=-1)+1")
-    rep.ob("O3.2", "R15", eh, okf, nid[0].stmt if nid else "next_id", "new hydrogen ids start above the largest existing node id")
+        caps = pfind("$r[$i] = ($x, $cap - $$k)", inner if inner is not None else eh.node)
+        okc = (len(caps) == 1 and caps[0][1]["k"] == "1") if caps else None
+        rep.ob("O3.2", "R15", eh, okc, caps[0][0] if caps else "recips[...] = (recv, rcap - 1)", "and exactly one unit of the recipient's deficit", node=c)
+    # fresh ids
+    okf = None
+    if news and isinstance(news[0].args[0], ast.Name):
+        h = news[0].args[0].id
+        hd = pfind("$h = $nid", mloop[0], {"h": h}) if mloop else []
+        if hd:
+            nid = hd[0][1]["nid"]
+            init = [n for n, b in pfind("$nid = $$e", eh.node, {"nid": nid}, into_nested=False) if not enclosing_loops(pmh, n, eh.node)]
+            inc = [n for n in walk_local(mloop[0]) if isinstance(n, ast.AugAssign) and norm(n.target) == nid and isinstance(n.op, ast.Add) and is_const(n.value, 1)]
+            okf = len(init) == 1 and pmatch("max(($n for $n in rc.nodes if isinstance($n, int)), default=-1) + 1", init[0].value) is not None and len(inc) == 1
+    rep.ob("O3.2", "R15", eh, okf, "next id = max(int node ids) + 1, advanced per hydrogen", "new hydrogen ids start above the largest existing node id and are advanced for every hydrogen")
     # SynRule.__init__: rebuild replaces only the hcount slot, left for member 0, right for member 1
     ri = rep.f(RULE, "SynRule.__init__")
     defs = local_defs(ri.node)
@@ -371,8 +385,13 @@ def schema(rep):
                         uname = list(olds)[0]
                     up = unpack_of(defs, uname) if uname else None
                     hc = src.elts[order.index("hcount")]
-                    side_graph = "left_graph" if side == 0 else "right_graph"
-                    other = "right_graph" if side == 0 else "left_graph"
+                    frag = {}
+                    for nm_, ds_ in defs.items():
+                        for d_ in ds_:
+                            if d_.index is not None and isinstance(d_.value, ast.Call) and call_name(d_.value) == "its_decompose":
+                                frag[d_.index[0]] = nm_
+                    side_graph = frag.get(side, "?")
+                    other = frag.get(1 - side, "?")
                     m = mentions(hc, [side_graph, other])
                     ok = keep and up is not None and up[1] == (side,) and m == {side_graph} and "hcount" in norm(hc)
                     rep.ob("O3.5", "R3a", ri, ok, f"typesGH[{side}] = {norm(src)}",
